@@ -1,13 +1,560 @@
-// Package c20 is the correspondence harness for property C20 (placeholder).
+// Package c20 is the correspondence harness for property C20: the device-injector and
+// ulimit-adjuster sample plugins, built from $VERIF_REPO/plugins/* on every run and launched
+// as pre-installed plugins (10-device-injector, 20-ulimit-adjuster) by a real
+// adaptation.Adaptation; each case is one CreateContainer request for a pod with a generated
+// annotation set. The observation is the CreateContainerResponse (canonical) or the error
+// kind. The YAML layer is the trusted oracle: the harness decodes every payload with the
+// same library into copies of the plugins' struct types and hands the result to the driver.
 package c20
 
 import (
-	"errors"
+	"context"
+	"encoding/json"
+	"fmt"
+	"os"
+	"os/exec"
+	"path/filepath"
+	"strings"
+	"sync"
+	"time"
+	"unicode"
+
+	"github.com/containerd/nri/pkg/adaptation"
+	"github.com/containerd/nri/pkg/api"
+	"sigs.k8s.io/yaml"
 
 	"verifh/internal/hx"
 	"verifh/internal/lineio"
 )
 
+// ---------------------------------------------------------------- line protocol types
+
+// copies of the plugins' annotation payload types (same JSON tags)
+type device struct {
+	Path     string `json:"path"`
+	Type     string `json:"type"`
+	Major    int64  `json:"major"`
+	Minor    int64  `json:"minor"`
+	FileMode uint32 `json:"file_mode"`
+	UID      uint32 `json:"uid"`
+	GID      uint32 `json:"gid"`
+}
+
+type mount struct {
+	Source      string   `json:"source"`
+	Destination string   `json:"destination"`
+	Type        string   `json:"type"`
+	Options     []string `json:"options"`
+}
+
+type ulimit struct {
+	Type string `json:"type"`
+	Hard uint64 `json:"hard"`
+	Soft uint64 `json:"soft"`
+}
+
+// one pod annotation plus what the YAML oracle says about its value
+type annIn struct {
+	K       string   `json:"k"`
+	V       string   `json:"v"`
+	Fam     string   `json:"fam"` // devices | cdi | mounts | ulimits | "" (not one of ours)
+	OK      bool     `json:"ok"`  // the YAML library accepted V for the family's target type
+	Devices []device `json:"devices"`
+	CDI     []string `json:"cdi"`
+	Mounts  []mount  `json:"mounts"`
+	Ulimits []ulimit `json:"ulimits"`
+}
+
+type podIn struct {
+	Kind   string  `json:"kind"` // "pod"
+	Stream string  `json:"stream"`
+	Ctr    string  `json:"ctr"`
+	Ann    []annIn `json:"ann"`
+}
+
+type devObs struct {
+	Path     string `json:"path"`
+	Type     string `json:"type"`
+	Major    int64  `json:"major"`
+	Minor    int64  `json:"minor"`
+	HasMode  bool   `json:"has_mode"`
+	FileMode uint32 `json:"file_mode"`
+	HasUID   bool   `json:"has_uid"`
+	UID      uint32 `json:"uid"`
+	HasGID   bool   `json:"has_gid"`
+	GID      uint32 `json:"gid"`
+}
+
+type rlObs struct {
+	Type string `json:"type"`
+	Hard uint64 `json:"hard"`
+	Soft uint64 `json:"soft"`
+}
+
+type podObs struct {
+	Err     string   `json:"err"` // "" = success; else an error kind
+	Devices []devObs `json:"devices"`
+	CDI     []string `json:"cdi"`
+	Mounts  []mount  `json:"mounts"`
+	Rlimits []rlObs  `json:"rlimits"`
+	Other   string   `json:"other"`   // "" or the name of any other part of the response that is not empty
+	Crashed bool     `json:"crashed"` // a plugin was gone after this request (sentinel request failed)
+}
+
+const (
+	deviceKey = "devices.nri.io"
+	mountKey  = "mounts.nri.io"
+	cdiKey    = "cdi-devices.nri.io"
+	ulimitKey = "ulimits.nri.containerd.io"
+)
+
+func family(key string) string {
+	main := key
+	if i := strings.Index(key, "/"); i >= 0 {
+		main = key[:i]
+	}
+	switch main {
+	case deviceKey:
+		return "devices"
+	case mountKey:
+		return "mounts"
+	case cdiKey:
+		return "cdi"
+	case ulimitKey:
+		return "ulimits"
+	}
+	return ""
+}
+
+// oracle: what yaml.Unmarshal leaves in the plugin's target variable for this family
+func decode(a *annIn) {
+	a.Fam = family(a.K)
+	a.OK, a.Devices, a.CDI, a.Mounts, a.Ulimits = false, []device{}, []string{}, []mount{}, []ulimit{}
+	switch a.Fam {
+	case "devices":
+		var v []device
+		if yaml.Unmarshal([]byte(a.V), &v) == nil {
+			a.OK = true
+			a.Devices = append(a.Devices, v...)
+		}
+	case "cdi":
+		var v []string
+		if yaml.Unmarshal([]byte(a.V), &v) == nil {
+			a.OK = true
+			a.CDI = append(a.CDI, v...)
+		}
+	case "mounts":
+		var v []mount
+		if yaml.Unmarshal([]byte(a.V), &v) == nil {
+			a.OK = true
+			for _, m := range v {
+				if m.Options == nil {
+					m.Options = []string{}
+				}
+				a.Mounts = append(a.Mounts, m)
+			}
+		}
+	case "ulimits":
+		v := make([]ulimit, 0)
+		if yaml.Unmarshal([]byte(a.V), &v) == nil {
+			a.OK = true
+			a.Ulimits = append(a.Ulimits, v...)
+		}
+	}
+}
+
+// ---------------------------------------------------------------- building the plugins
+
+func repoDir() string {
+	if r := os.Getenv("VERIF_REPO"); r != "" {
+		return r
+	}
+	return "/repo"
+}
+
+// buildPlugin builds $repo/plugins/<name> (its own module, `replace => ../..`) into out,
+// offline, without writing anything inside the repository: go.mod/go.sum are copied next to
+// the output and passed with -modfile.
+func buildPlugin(repo, name, workdir, out string) error {
+	src := filepath.Join(repo, "plugins", name)
+	mod, err := os.ReadFile(filepath.Join(src, "go.mod"))
+	if err != nil {
+		return err
+	}
+	abs, err := filepath.Abs(repo)
+	if err != nil {
+		return err
+	}
+	txt := strings.ReplaceAll(string(mod), "=> ../..", "=> "+abs)
+	mf := filepath.Join(workdir, name+".mod")
+	if err := os.WriteFile(mf, []byte(txt), 0o644); err != nil {
+		return err
+	}
+	if sum, err := os.ReadFile(filepath.Join(src, "go.sum")); err == nil {
+		if err := os.WriteFile(filepath.Join(workdir, name+".sum"), sum, 0o644); err != nil {
+			return err
+		}
+	}
+	ctx, cancel := context.WithTimeout(context.Background(), 5*time.Minute)
+	defer cancel()
+	cmd := exec.CommandContext(ctx, "go", "build", "-modfile", mf, "-o", out, ".")
+	cmd.Dir = src
+	cmd.Env = append(os.Environ(), "GOFLAGS=-mod=mod", "GOPROXY=off", "GOSUMDB=off", "GOTOOLCHAIN=local", "CGO_ENABLED=0")
+	if b, err := cmd.CombinedOutput(); err != nil {
+		return fmt.Errorf("go build %s: %v\n%s", name, err, b)
+	}
+	return nil
+}
+
+// ---------------------------------------------------------------- a runtime with the two plugins
+
+type worker struct {
+	pluginDir string
+	confDir   string
+	r         *adaptation.Adaptation
+}
+
+func newWorker(pluginDir, confDir string) (*worker, error) {
+	w := &worker{pluginDir: pluginDir, confDir: confDir}
+	if err := w.start(); err != nil {
+		return nil, err
+	}
+	return w, nil
+}
+
+func (w *worker) start() error {
+	syncFn := func(ctx context.Context, cb adaptation.SyncCB) error {
+		_, err := cb(ctx, nil, nil)
+		return err
+	}
+	updateFn := func(context.Context, []*api.ContainerUpdate) ([]*api.ContainerUpdate, error) {
+		return nil, nil
+	}
+	r, err := adaptation.New("verifh", "0", syncFn, updateFn,
+		adaptation.WithPluginPath(w.pluginDir),
+		adaptation.WithPluginConfigPath(w.confDir),
+		adaptation.WithDisabledExternalConnections())
+	if err != nil {
+		return err
+	}
+	if err := r.Start(); err != nil {
+		return err
+	}
+	w.r = r
+	if !w.sentinel() {
+		r.Stop()
+		return fmt.Errorf("the two plugins did not both answer the sentinel request after Start")
+	}
+	return nil
+}
+
+func (w *worker) stop() {
+	if w.r != nil {
+		w.r.Stop()
+		w.r = nil
+	}
+}
+
+func request(ctr string, ann map[string]string) *api.CreateContainerRequest {
+	return &api.CreateContainerRequest{
+		Pod:       &api.PodSandbox{Id: "pod0", Name: "pod0", Uid: "uid0", Namespace: "default", Annotations: ann},
+		Container: &api.Container{Id: "ctr0", PodSandboxId: "pod0", Name: ctr},
+	}
+}
+
+// sentinel: a fixed request both plugins must answer with one device and one rlimit
+func (w *worker) sentinel() bool {
+	ctx, cancel := context.WithTimeout(context.Background(), 60*time.Second)
+	defer cancel()
+	rsp, err := w.r.CreateContainer(ctx, request("sentinel", map[string]string{
+		deviceKey + "/container.sentinel": "- path: /dev/sentinel\n  type: c\n  major: 1\n  minor: 2\n",
+		ulimitKey + "/container.sentinel": "- type: nofile\n  hard: 2\n  soft: 1\n",
+	}))
+	if err != nil || rsp == nil || rsp.Adjust == nil {
+		return false
+	}
+	return len(rsp.Adjust.GetLinux().GetDevices()) == 1 && len(rsp.Adjust.GetRlimits()) == 1
+}
+
+func classify(err error) string {
+	s := err.Error()
+	if i := strings.Index(s, "desc = "); i >= 0 {
+		s = s[i+len("desc = "):]
+	}
+	switch {
+	case strings.HasPrefix(s, "invalid device annotation"):
+		return "bad-devices"
+	case strings.HasPrefix(s, "invalid CDI device annotation"):
+		return "bad-cdi"
+	case strings.HasPrefix(s, "invalid mount annotation"):
+		return "bad-mounts"
+	case strings.HasPrefix(s, "failed to parse type"):
+		return "bad-type"
+	case strings.HasPrefix(s, "ulimit ") && strings.Contains(s, "must have hard limit"):
+		return "hard-lt-soft"
+	case strings.Contains(s, "both tried to set mount"):
+		return "conflict-mount"
+	case strings.Contains(s, "both tried to set device"):
+		return "conflict-device"
+	case strings.Contains(s, "both tried to set CDI device"):
+		return "conflict-cdi"
+	case strings.Contains(s, "both tried to set rlimit"):
+		return "conflict-rlimit"
+	case strings.HasPrefix(s, "error unmarshaling JSON"), strings.HasPrefix(s, "error converting YAML to JSON"),
+		strings.HasPrefix(s, "yaml:"), strings.HasPrefix(s, "json:"):
+		return "bad-ulimits"
+	case strings.Contains(s, "context deadline exceeded"):
+		return "timeout"
+	}
+	if os.Getenv("C20_DEBUG") != "" {
+		fmt.Fprintln(os.Stderr, "other-error:", err)
+	}
+	return "other-error"
+}
+
+func (w *worker) run(in *podIn) podObs {
+	ann := map[string]string{}
+	for i := range in.Ann {
+		decode(&in.Ann[i]) // the YAML oracle, recomputed on every run (also on replay)
+		ann[in.Ann[i].K] = in.Ann[i].V
+	}
+	o := podObs{Devices: []devObs{}, CDI: []string{}, Mounts: []mount{}, Rlimits: []rlObs{}}
+	ctx, cancel := context.WithTimeout(context.Background(), 60*time.Second)
+	rsp, err := w.r.CreateContainer(ctx, request(in.Ctr, ann))
+	cancel()
+	if err != nil {
+		o.Err = classify(err)
+	} else {
+		canon(rsp, &o)
+	}
+	if !w.sentinel() {
+		o.Crashed = true
+		w.stop()
+		if err := w.start(); err != nil {
+			// cannot continue with this worker; every later case on it will show as crashed
+			w.r = nil
+		}
+	}
+	return o
+}
+
+func canon(rsp *api.CreateContainerResponse, o *podObs) {
+	if rsp == nil {
+		o.Other = "nil-response"
+		return
+	}
+	if len(rsp.Update) != 0 {
+		o.Other = "update"
+	}
+	if len(rsp.Evict) != 0 {
+		o.Other = "evict"
+	}
+	a := rsp.Adjust
+	if a == nil {
+		return
+	}
+	for _, d := range a.GetLinux().GetDevices() {
+		x := devObs{Path: d.Path, Type: d.Type, Major: d.Major, Minor: d.Minor}
+		if d.FileMode != nil {
+			x.HasMode, x.FileMode = true, d.FileMode.Value
+		}
+		if d.Uid != nil {
+			x.HasUID, x.UID = true, d.Uid.Value
+		}
+		if d.Gid != nil {
+			x.HasGID, x.GID = true, d.Gid.Value
+		}
+		o.Devices = append(o.Devices, x)
+	}
+	for _, c := range a.CDIDevices {
+		o.CDI = append(o.CDI, c.Name)
+	}
+	for _, m := range a.Mounts {
+		opts := m.Options
+		if opts == nil {
+			opts = []string{}
+		}
+		o.Mounts = append(o.Mounts, mount{Source: m.Source, Destination: m.Destination, Type: m.Type, Options: opts})
+	}
+	for _, l := range a.Rlimits {
+		o.Rlimits = append(o.Rlimits, rlObs{Type: l.Type, Hard: l.Hard, Soft: l.Soft})
+	}
+	// everything else must be empty
+	switch {
+	case len(a.Annotations) != 0:
+		o.Other = "annotations"
+	case len(a.Env) != 0:
+		o.Other = "env"
+	case len(a.Args) != 0:
+		o.Other = "args"
+	case a.Hooks != nil && (len(a.Hooks.Prestart)+len(a.Hooks.CreateRuntime)+len(a.Hooks.CreateContainer)+
+		len(a.Hooks.StartContainer)+len(a.Hooks.Poststart)+len(a.Hooks.Poststop)) != 0:
+		o.Other = "hooks"
+	case a.Linux != nil && a.Linux.CgroupsPath != "":
+		o.Other = "cgroups-path"
+	case a.Linux != nil && a.Linux.OomScoreAdj != nil:
+		o.Other = "oom-score-adj"
+	case a.Linux != nil && a.Linux.Resources != nil && !emptyResources(a.Linux.Resources):
+		o.Other = "resources"
+	}
+}
+
+func emptyResources(r *api.LinuxResources) bool {
+	if len(r.HugepageLimits) != 0 || len(r.Unified) != 0 || len(r.Devices) != 0 {
+		return false
+	}
+	if r.BlockioClass != nil || r.RdtClass != nil || r.Pids != nil {
+		return false
+	}
+	if m := r.Memory; m != nil {
+		if m.Limit != nil || m.Reservation != nil || m.Swap != nil || m.Kernel != nil || m.KernelTcp != nil ||
+			m.Swappiness != nil || m.DisableOomKiller != nil || m.UseHierarchy != nil {
+			return false
+		}
+	}
+	if c := r.Cpu; c != nil {
+		if c.Shares != nil || c.Quota != nil || c.Period != nil || c.RealtimeRuntime != nil ||
+			c.RealtimePeriod != nil || c.Cpus != "" || c.Mems != "" {
+			return false
+		}
+	}
+	return true
+}
+
+// ---------------------------------------------------------------- the upper-casing table
+
+type upperObs struct {
+	ASCII []int    `json:"ascii"` // unicode.ToUpper(c) for c = 0 … 127
+	Extra [][2]int `json:"extra"` // every non-ASCII rune r with unicode.ToUpper(r) < 128, with its image
+	Str   bool     `json:"str"`   // strings.ToUpper agrees with the rune-wise map on probe strings
+}
+
+func upperCase() upperObs {
+	o := upperObs{ASCII: []int{}, Extra: [][2]int{}, Str: true}
+	for c := rune(0); c < 128; c++ {
+		o.ASCII = append(o.ASCII, int(unicode.ToUpper(c)))
+	}
+	for r := rune(128); r <= unicode.MaxRune; r++ {
+		if u := unicode.ToUpper(r); u < 128 {
+			o.Extra = append(o.Extra, [2]int{int(r), int(u)})
+		}
+	}
+	for _, s := range []string{"nofile", "rlimit_cpu", "nıce", "ſtack", "Rlimit_Memlock", "Straße", "ǆ"} {
+		want := []rune{}
+		for _, r := range s {
+			want = append(want, unicode.ToUpper(r))
+		}
+		if strings.ToUpper(s) != string(want) {
+			o.Str = false
+		}
+	}
+	return o
+}
+
+// ---------------------------------------------------------------- Run
+
 func Run(o *hx.Opts, w *lineio.Writer) error {
-	return errors.New("C20 harness not implemented")
+	var inputs []*podIn
+	var ids []string
+	upper := false
+	if o.Replay != "" {
+		cases, err := hx.ReplayCases(o.Replay)
+		if err != nil {
+			return err
+		}
+		for _, c := range cases {
+			var k struct {
+				Kind string `json:"kind"`
+			}
+			if err := json.Unmarshal(c.In, &k); err != nil {
+				return err
+			}
+			switch k.Kind {
+			case "upper":
+				upper = true
+			case "pod":
+				in := &podIn{}
+				if err := json.Unmarshal(c.In, in); err != nil {
+					return err
+				}
+				inputs = append(inputs, in)
+				ids = append(ids, c.ID)
+			default:
+				return fmt.Errorf("unknown case kind %q", k.Kind)
+			}
+		}
+	} else {
+		upper = true
+		inputs = generate(o)
+		for i, in := range inputs {
+			ids = append(ids, fmt.Sprintf("%s-%d", in.Stream, i))
+		}
+	}
+	if upper {
+		w.Put(&lineio.Case{ID: "upper", In: map[string]string{"kind": "upper"}, Obs: upperCase()})
+	}
+	if len(inputs) == 0 {
+		return nil
+	}
+
+	// build the two plugins from the repository under test
+	pluginDir := filepath.Join(o.Scratch, "plugins")
+	confDir := filepath.Join(o.Scratch, "conf.d")
+	buildDir := filepath.Join(o.Scratch, "build")
+	for _, d := range []string{pluginDir, confDir, buildDir} {
+		if err := os.MkdirAll(d, 0o755); err != nil {
+			return err
+		}
+	}
+	t0 := time.Now()
+	if err := buildPlugin(repoDir(), "device-injector", buildDir, filepath.Join(pluginDir, "10-device-injector")); err != nil {
+		return err
+	}
+	if err := buildPlugin(repoDir(), "ulimit-adjuster", buildDir, filepath.Join(pluginDir, "20-ulimit-adjuster")); err != nil {
+		return err
+	}
+	tBuild := time.Since(t0)
+	adaptation.SetPluginRequestTimeout(30 * time.Second)
+	adaptation.SetPluginRegistrationTimeout(30 * time.Second)
+
+	nw := 8
+	if len(inputs) < 64 {
+		nw = 1
+	}
+	obs := make([]podObs, len(inputs))
+	var wg sync.WaitGroup
+	errs := make([]error, nw)
+	t1 := time.Now()
+	for k := 0; k < nw; k++ {
+		wg.Add(1)
+		go func(k int) {
+			defer wg.Done()
+			wk, err := newWorker(pluginDir, confDir)
+			if err != nil {
+				errs[k] = err
+				return
+			}
+			defer wk.stop()
+			for i := k; i < len(inputs); i += nw {
+				if wk.r == nil {
+					obs[i] = podObs{Err: "no-runtime", Crashed: true, Devices: []devObs{}, CDI: []string{}, Mounts: []mount{}, Rlimits: []rlObs{}}
+					continue
+				}
+				obs[i] = wk.run(inputs[i])
+			}
+		}(k)
+	}
+	wg.Wait()
+	for _, err := range errs {
+		if err != nil {
+			return err
+		}
+	}
+	el := time.Since(t1)
+	for i, in := range inputs {
+		w.Put(&lineio.Case{ID: ids[i], In: in, Obs: obs[i]})
+	}
+	fmt.Fprintf(os.Stderr, "c20: plugins built in %.1fs; %d requests (+%d sentinels) through 2 launched plugins on %d runtimes in %.2fs = %.0f cases/s\n",
+		tBuild.Seconds(), len(inputs), len(inputs)+nw, nw, el.Seconds(), float64(len(inputs))/el.Seconds())
+	return nil
 }
